@@ -38,8 +38,8 @@ ASSUMPTIONS = [
 ]
 TIERS = {"quick": (160, 80, 120), "thorough": (10000, 600, 180)}
 
-KEEP_CANDIDATES = ["power", "flux", "vP0", "vP1", "vF0", "temperatureInC", "numberDensities", "height", "keff", "vSent", "mgFlux", "vP2", "id"]
-SET_PARAMS = ["vP0", "vP1", "vP2", "vF0", "vI0", "vS0", "vSent"]
+KEEP_CANDIDATES = ["power", "flux", "vP0", "vP1", "vF0", "temperatureInC", "numberDensities", "height", "keff", "vSent", "mgFlux", "vP2", "id", "mult"]
+SET_PARAMS = ["vP0", "vP1", "vP2", "vF0", "vI0", "vS0", "vSent", "vN0"]  # (vN0 has no default: unset until assigned)
 
 
 def gen_plan(rng, index, tier):
@@ -77,8 +77,19 @@ def gen_plan(rng, index, tier):
                 {"op": "exit"},
             ]
         elif r < 0.215 and r >= 0.205:
-            # a linked dimension gets a number of its own (the link is gone until the scope ends)
-            steps.append({"op": "unlink", "idx": rng.randrange(1000), "factor": rng.choice([0.995, 1.0])})
+            if rng.random() < 0.5:
+                # a linked dimension gets a number of its own (the link is gone until the scope ends)
+                steps.append({"op": "unlink", "idx": rng.randrange(1000), "factor": rng.choice([0.995, 1.0])})
+            elif depth < 3 and rng.random() < 0.6:
+                # the other way round, inside a scope that keeps that dimension: the duct's
+                # multiplicity (a number at entry) becomes a link to the intercoolant's and stays one
+                steps += [
+                    {"op": "enter", "level": rng.choice(["core", "assembly", "block"]), "idx": rng.randrange(1000), "keep": sorted({"mult"} | set(rng.sample(KEEP_CANDIDATES, rng.choice([0, 1]))))},
+                    {"op": "mklink", "idx": rng.randrange(1000)},
+                    {"op": "exit"},
+                ]
+            else:
+                steps.append({"op": "mklink", "idx": rng.randrange(1000)})
         elif r >= 0.195 and r < 0.205:
             # a scope on one component only: its temperature changes, the neighbours are looked at
             steps.append({"op": "compscope", "idx": rng.randrange(1000), "T": rng.choice([300.0, 450.0, 600.0]), "lookInside": rng.random() < 0.8})
@@ -428,6 +439,21 @@ class Runner:
                 c.setDimension(dn, float(c.getDimension(dn, cold=True)) * st["factor"], cold=True)
                 self.edits += 1
                 self.probe("linked_dimension_given_a_number")
+        elif op == "mklink" and not self.readonly:
+            from armi.reactor.blocks import Block
+
+            cands = []
+            for b in c06.objects_at_level(r, "block"):
+                # (the duct has no linked dimension of its own; the intercoolant's multiplicity is a number too)
+                cl, fu = b.getComponentByName("duct"), b.getComponentByName("intercoolant")
+                if cl is not None and fu is not None and not isinstance(cl.p.mult, tuple) and not isinstance(fu.p.mult, tuple) and cl.p.mult == fu.p.mult:
+                    cands.append((cl, fu))
+            if cands:
+                cl, fu = cands[st["idx"] % len(cands)]
+                cl.setLink("mult", fu, "mult")
+                self.edits += 1
+                self.probe("number_dimension_turned_into_a_link")
+            _ = Block
         elif op == "dimcache" and not self.readonly:
             from armi.reactor.components import basicShapes
 
